@@ -17,6 +17,13 @@ LOOPS = [
     ("in-transducer", "(transduce (list 1 2 3) (mapping (lambda (x) (let loop ([i 0]) (loop (+ i 1))))) (into-list))"),
     ("in-handler", "(with-handler (lambda (e) (let loop ([i 0]) (loop (+ i 1)))) (car 1))"),
     ("in-wind-body", "(dynamic-wind (lambda () 1) (lambda () (let loop ([i 0]) (loop (+ i 1)))) (lambda () 2))"),
+    # the script catches every error and carries on: the interrupt is a request of the HOST, a handler must
+    # not be able to swallow it (body under a catch-all handler, retried forever)
+    ("handler-retry-loop", "(define (work@@ n) (let loop ([i 0]) (if (< i n) (loop (+ i 1)) i))) (let retry ([k 0]) (with-handler (lambda (e) 'recovered) (work@@ 20000)) (retry (+ k 1)))"),
+    ("handler-retry-loop-cweh", "(define (work@@ n) (let loop ([i 0]) (if (< i n) (loop (+ i 1)) i))) (let retry ([k 0]) (call-with-exception-handler (lambda (e) 'recovered) (lambda () (work@@ 20000))) (retry (+ k 1)))"),
+    ("nested-handlers-retry", "(define (work@@ n) (let loop ([i 0]) (if (< i n) (loop (+ i 1)) i))) (let retry ([k 0]) (with-handler (lambda (e) 'outer) (with-handler (lambda (e) 'inner) (work@@ 20000)) (work@@ 20000)) (retry (+ k 1)))"),
+    ("wind-after-retry", "(define (work@@ n) (let loop ([i 0]) (if (< i n) (loop (+ i 1)) i))) (let retry ([k 0]) (with-handler (lambda (e) 'recovered) (dynamic-wind (lambda () 1) (lambda () (work@@ 20000)) (lambda () (work@@ 2000)))) (retry (+ k 1)))"),
+    ("handler-around-map", "(define (work@@ n) (let loop ([i 0]) (if (< i n) (loop (+ i 1)) i))) (let retry ([k 0]) (with-handler (lambda (e) '()) (map (lambda (x) (work@@ 20000)) (list 1 2 3))) (retry (+ k 1)))"),
     ("alloc-heavy", "(let loop ([i 0] [acc '()]) (loop (+ i 1) (if (> (length acc) 2000) '() (cons (box i) acc))))"),
     ("hash-churn", "(let loop ([i 0] [h (hash)]) (loop (+ i 1) (hash-insert h (modulo i 100) i)))"),
     ("string-churn", "(let loop ([i 0] [s \"\"]) (loop (+ i 1) (if (> (string-length s) 1000) \"\" (string-append s \"x\"))))"),
@@ -90,7 +97,7 @@ def run(tier, seed):
                             {"id": sc["id"], "trace": path, "end": end, "jit": jit, "window_validation": val})
     r.cov["distinct_nontrivial"] = nontriv + 2
     r.cov["rule"] = ("Safepoint.tla invariant C17 (a pending interrupt is never overwritten) exhaustively on the repaired protocol and as "
-                     "counterexample of the as-is steps; directed interrupt placements and 12 loop shapes x JIT on/off on the real VM: "
+                     "counterexample of the as-is steps; directed interrupt placements and 17 loop shapes x JIT on/off on the real VM: "
                      "the evaluation must end with the interruption error")
     return r.finish()
 
